@@ -56,6 +56,7 @@ type msgsObs struct {
 	OwnRes          string // ok | rejected | timeout | error
 	OwnDetail       string
 	Nonce           []string // "~nonce": violated clauses
+	Undeliv         []string // "~undeliv-*": the publications of the victim that were made to fail
 	Held            bool     // an honest update of the victim waits for a silent peer (its machine mutex is held for 30 s) while the messages arrive
 	SetupErr        string
 	Stage           string
@@ -95,7 +96,7 @@ func msgsExec(mode msgsMode) func(t *testing.T, ssc schedrun.Scenario, o vsched.
 		// the client waits for a matching funding / settlement proposal)
 		gap := map[string]time.Duration{"seq": 60 * time.Second, "gap": 11 * time.Second}[variant]
 		var cases []*mcase
-		if variant != "nonce" {
+		if variant != "nonce" && !strings.HasPrefix(variant, "undeliv") {
 			cases = lookupCases(sender, names)
 		}
 		if variant == "own" {
@@ -107,7 +108,8 @@ func msgsExec(mode msgsMode) func(t *testing.T, ssc schedrun.Scenario, o vsched.
 				n = 3
 			}
 			w := NewWorld(n, nil, false)
-			if variant == "unreach" {
+			victimBus = nil
+			if variant == "unreach" || variant == "undeliv-fail" || variant == "undeliv-block" {
 				rewireVictim(w)
 			}
 			sc := &mScene{w: w, V: w.P[0], M: w.P[1], S: newStranger(77), Pt: pt}
@@ -135,6 +137,20 @@ func msgsExec(mode msgsMode) func(t *testing.T, ssc schedrun.Scenario, o vsched.
 				obs.Stage = "done"
 				return
 			}
+			if strings.HasPrefix(variant, "undeliv") {
+				// honest traffic only: M's request, the victim's answer cannot be delivered
+				obs.PropsBefore, obs.ChansBefore = len(V.ProposalsSeen), len(V.Chans)
+				res, failed := sc.undelivRun(lookupUndeliv(strings.TrimPrefix(names, "undeliv/")), strings.TrimPrefix(variant, "undeliv-"))
+				obs.OwnRes = "M's request: " + res
+				obs.Undeliv = failed
+				obs.Stage = "waiting"
+				vsched.Sleep(60 * time.Second)
+				obs.PropsAfter, obs.ChansAfter = len(V.ProposalsSeen), len(V.Chans)
+				obs.Stage = "probing"
+				obs.Probes = sc.probe()
+				obs.Stage = "done"
+				return
+			}
 			vRequestOut := false
 			w.Bus.Drop = func(e *wire.Envelope) bool {
 				if w.partyOf(e.Sender) == V.Idx {
@@ -153,7 +169,7 @@ func msgsExec(mode msgsMode) func(t *testing.T, ssc schedrun.Scenario, o vsched.
 							return false
 						}
 					}
-					if sc.B != nil && w.partyOf(e.Recipient) == sc.B.Idx {
+					if sc.B != nil && w.partyOf(e.Recipient) == sc.B.Idx && sc.Pt != "hub-collude" {
 						return false // hub points: B is an honest real client, the hub's answers reach it
 					}
 					return true
@@ -183,24 +199,34 @@ func msgsExec(mode msgsMode) func(t *testing.T, ssc schedrun.Scenario, o vsched.
 					it.Control = c.Control(sc)
 				}
 				it.Neutral = c.Neutral && it.Control
-				msg := c.Build(sc)
-				if msg == nil {
+				var envs []*wire.Envelope
+				if c.Envs != nil {
+					envs = c.Envs(sc)
+				} else if msg := c.Build(sc); msg != nil {
+					envs = []*wire.Envelope{{Sender: sc.id(c.Sender).Wire, Recipient: V.WireID, Msg: msg}}
+				}
+				if len(envs) == 0 {
 					it.NA = true
 					return
 				}
-				env := &wire.Envelope{Sender: sc.id(c.Sender).Wire, Recipient: V.WireID, Msg: msg}
-				dec, proto, why := mPrepare(env, c.Proto)
-				if dec == nil {
-					it.NotExpr = why
-					return
+				protos := make([]bool, len(envs))
+				for k, env := range envs {
+					dec, proto, why := mPrepare(env, c.Proto)
+					if dec == nil {
+						it.NotExpr = why
+						return
+					}
+					protos[k] = proto
+					it.Proto = it.Proto || proto
+					if up, ok := dec.Msg.(client.ChannelUpdateProposal); ok {
+						it.IsUpdate = true
+						crafts = append(crafts, mCrafted{i, up.Base()})
+					}
 				}
-				it.Proto = proto
-				if up, ok := dec.Msg.(client.ChannelUpdateProposal); ok {
-					it.IsUpdate = true
-					crafts = append(crafts, mCrafted{i, up.Base()})
-				}
-				if err := w.Bus.Inject(env, proto); err != nil {
-					panic("harness: inject: " + err.Error())
+				for k, env := range envs {
+					if err := w.Bus.Inject(env, protos[k]); err != nil {
+						panic("harness: inject: " + err.Error())
+					}
 				}
 			}
 			injectAll := func() {
@@ -632,6 +658,10 @@ type msgsPlan struct {
 	Own bool
 	// Nonce family (C08): honest openings of these kinds with the victim as responder
 	NoncePts map[string]string // kind -> point
+	// Undeliv family: honest requests of M whose answer by the victim cannot be delivered
+	Undeliv bool
+	// HubPair family: both ends of a virtual channel collude against the hub (point hub-collude)
+	HubPair bool
 }
 
 type gapFamily struct {
@@ -667,6 +697,33 @@ func msgsScenarios(mode msgsMode, plan msgsPlan) func(res *report.Result) []sche
 					if c := &all[i]; c.Cat == "own" && c.applies(pt) {
 						out = append(out, schedrun.Scenario{Name: pt + "~own/" + c.Sender + "/" + c.Name, Mode: explore.Delay, Bound: 0, MaxSteps: 400000, Weight: 2})
 					}
+				}
+			}
+		}
+		if plan.Undeliv {
+			for _, c := range undelivCases {
+				for _, pt := range c.Pts {
+					for _, mode := range []string{"fail", "block"} {
+						out = append(out, schedrun.Scenario{Name: pt + "~undeliv-" + mode + "/M/undeliv/" + c.Name, Mode: explore.Delay, Bound: 0, MaxSteps: 400000, Weight: 2})
+					}
+				}
+			}
+		}
+		if plan.HubPair {
+			var pairs, probes []string
+			for i := range all {
+				if c := &all[i]; c.Cat == "hubpair" {
+					if strings.HasPrefix(c.Name, "hubpair/update-") {
+						probes = append(probes, c.Name)
+					} else {
+						pairs = append(pairs, c.Name)
+					}
+				}
+			}
+			for _, a := range pairs {
+				out = append(out, schedrun.Scenario{Name: "hub-collude/M/" + a, Mode: explore.Delay, Bound: 0, MaxSteps: 400000, Weight: 3})
+				for _, b := range probes {
+					out = append(out, schedrun.Scenario{Name: "hub-collude~gap/M/" + a + "+" + b, Mode: explore.Delay, Bound: 0, MaxSteps: 400000, Weight: 3})
 				}
 			}
 		}
@@ -832,7 +889,10 @@ func msgsDigest(mode msgsMode) func(schedrun.Scenario, *vsched.Sched, any) strin
 		if obs.OwnKind != "" {
 			msgsCount("own_request:"+obs.OwnRes, 1)
 		}
-		return fmt.Sprintf("%s|%v|%s|%s|props=%d chans=%d upds=%d|%v|%s|%v|%v|%v", obs.OwnRes, obs.Nonce, obs.Stage, sb.String(), obs.PropsAfter-obs.PropsBefore,
+		if len(obs.Undeliv) > 0 {
+			msgsCount("victim_publications_failed", int64(len(obs.Undeliv)))
+		}
+		return fmt.Sprintf("%v|%s|%v|%s|%s|props=%d chans=%d upds=%d|%v|%s|%v|%v|%v", obs.Undeliv, obs.OwnRes, obs.Nonce, obs.Stage, sb.String(), obs.PropsAfter-obs.PropsBefore,
 			obs.ChansAfter-obs.ChansBefore, obs.UpdsSeen, obs.Probes, obs.InflightRes, len(s.Panics) > 0, s.Deadlock, obs.SetupErr)
 	}
 }
@@ -853,6 +913,9 @@ func msgsDescribe(_ schedrun.Scenario, s *vsched.Sched, o any) string {
 	}
 	for _, n := range obs.Nonce {
 		fmt.Fprintf(&sb, "  nonce: %s\n", n)
+	}
+	if strings.HasPrefix(obs.Variant, "undeliv") {
+		fmt.Fprintf(&sb, "  %s; publications of the victim made to fail: %v\n", obs.OwnRes, obs.Undeliv)
 	}
 	if obs.Inflight || obs.Held {
 		fmt.Fprintf(&sb, "  in-flight update of the victim: %s\n", obs.InflightRes)
